@@ -242,6 +242,8 @@ def exchange_json(exs):
         j = M.to_json_msg(ex['cm'])
         j['lines'] = [[p, list(c), list(e), t] for (p, c, e, t) in ex['cm']['lines']]
         out.append({'cm': j, 'pieces': list(ex['pieces'])})
+        if ex.get('post') is not None:
+            out[-1]['post'] = list(ex['post'])
     return out
 
 
@@ -255,6 +257,8 @@ def exchange_from_json(js):
         cm['chunks'] = [{k: bytes(c[k]) for k in ('hdr', 'data', 'end')} for c in j['chunks']]
         cm['lines'] = [(p, bytes(c), bytes(e), t) for (p, c, e, t) in j['lines']]
         out.append({'cm': cm, 'pieces': ex['pieces']})
+        if ex.get('post') is not None:
+            out[-1]['post'] = bytes(ex['post'])
     return out
 
 
@@ -337,6 +341,19 @@ def run(chk):
             r.execute()
             runs.append(('random', NX, exs, r))
     if warc:
+        # requests that carry a body (--post-data): the request record holds header block AND body
+        npost = 0
+        for (origin, NX, exs, r0) in list(runs):
+            if npost >= (120 if quick else 2000):
+                break
+            if not all(ex['cm']['method'] == 'GET' for ex in exs):
+                continue
+            exs2 = [dict(ex, post=bytes(rng.choice(b'abc=&%20+') for _ in range(rng.choice([0, 1, 7, 300, 5000])))) for ex in exs]
+            r = Run(exs2, warc=True)
+            r.execute()
+            runs.append(('post', NX, exs2, r))
+            npost += 1
+        chk.extra['post_runs'] = npost
         # --warc-dedup: the URL table knows some of the URLs with the payload about to be received -> revisit records
         nd = 0
         for (origin, NX, exs, r0) in list(runs):
@@ -373,7 +390,7 @@ def run(chk):
             continue
         seen.add(key)
         chk.distinct.add(hash(key))
-        groups.setdefault(NX, []).append((origin, exs, r, mt, None if getattr(r, 'dedup', None) else strict_trace(r)))
+        groups.setdefault(NX, []).append((origin, exs, r, mt, None if (getattr(r, 'dedup', None) or any(ex.get('post') is not None for ex in exs)) else strict_trace(r)))
 
     # one TLC job per chunk of traces, several at a time
     CH = 600 if quick else 1200
